@@ -350,6 +350,16 @@ class Attack:
                               'of bystander %r' % (e[1], e[4]),
                               {'frame': repr(op[2])[:400], 'event': e})
                     return False
+                mine = {s for (T, ns), lst in self.r.issued.items()
+                        if T == self.OT for s in lst}
+                if e[1] == 'event' and e[4] not in mine:
+                    # an application handler may only ever run on behalf of
+                    # the session the frame came from
+                    self.fail('offender frame invoked an event handler with '
+                              'session id %r, which is not a session of the '
+                              'offender (namespace %r)' % (e[4], e[2]),
+                              {'frame': repr(op[2])[:400], 'event': e})
+                    return False
                 if e[1] == 'event' and isinstance(op[2], str) and \
                         not self.was_reassembling and \
                         self.cfg['serializer'] == 'default' and \
